@@ -96,6 +96,8 @@ func stringSwitchCases(p *Prog, fn *ssa.Function) map[string]bool {
 
 func runC07(c *Ctx) {
 	p := c.P
+	// clause shared with C11: binding a repeated well-known-type parameter must not panic
+	defer c.ImportRules("C11", "C11.12")
 
 	// ---------------------------------------------------------------- C07.1
 	c.Rule("C07.1", "every failure of the parameter setter is invalid_argument", 2)
